@@ -2,6 +2,7 @@ import Oracle.Sexp
 import Oracle.Slice
 import Oracle.Lib
 import Oracle.Equal
+import Oracle.Prec
 open Oracle
 
 /-- a line is `(<stream> payload...)`; the answer is one S-expression -/
@@ -11,6 +12,7 @@ def handle (line : String) : String :=
     match stream with
     | "echo" => toString (Sx.list payload)
     | "slice.hist" => toString (Oracle.Slice.handle payload)
+    | "c08.chain" => toString (Oracle.Prec.handle payload)
     | "eq.pair" => toString (Oracle.Equal.handle payload)
     | "lib.dict" => toString (Oracle.Lib.dictStream payload)
     | "lib.str" => toString (Oracle.Lib.strCall payload)
